@@ -21,6 +21,7 @@ U32 = 4294967295
 
 def A(tok, **kw):
     kw.setdefault('lp', 100); kw.setdefault('segs', [(2, 2)]); kw.setdefault('origin', 0)
+    if tok % 3 == 1: kw.setdefault('orig', 1000 + tok)      # import policy rewrote this block
     return R.mk_attr(tok, **kw)
 
 # sources (tok, addr, rid, role)
@@ -212,6 +213,11 @@ def duels():
         for arr in ('xy', 'yx'):
             ops = list(two) if arr == 'xy' else [two[1], two[0]]
             out.append(case('duel:ecmp_one_step:%s:%s' % (st, arr), ops + post + [ins((3, 3, 20, 0), 1, mk(182, dict(base, lp=10)), nh=3)]))
+    # complete ties (ORIGINATOR_ID of one = router id of the other): arrival order stands, also through re-sorts
+    for arr in ('xy', 'yx'):
+        two = [ins((1, 1, 9, 0), 1, A(183)), ins((2, 2, 5, 0), 1, A(184, oid=9), nh=2), ins((3, 3, 9, 0), 1, A(185), nh=3)]
+        if arr == 'yx': two.reverse()
+        out.append(case('duel:full_tie:%s' % arr, two + [('restale', False, 4), ('restale', False, 2), ('restale', True, 2), ('nhv', 2, False), ('nhv', 2, True)]))
     # defaults tie with explicit values: LOCAL_PREF absent = 100, ORIGIN absent = incomplete,
     # CLUSTER_LIST absent = empty, ORIGINATOR_ID absent = router id
     out.append(case('duel:defaults_tie', [ins((1, 1, 9, 0), 1, R.mk_attr(125, lp=None, segs=None, origin=None, clen=None, oid=None)),
@@ -276,6 +282,12 @@ def hops_cases():
                     # the longer path arrives first and has the better router id: only the hop count puts X first
                     out.append(case('hops:%d_vs_%d:%s:%s:asn%d' % (h, h + 1, nm, nm2, par),
                                     [ins((2, 2, 1, 0), 1, ay, nh=2), ins((1, 1, 9, 0), 1, ax)]))
+    # many short segments: the walk over the segment headers itself crosses 63/64 and 255/256
+    for h in (63, 64, 65, 255, 256, 257):
+        for kind in (2, 1):
+            ax = R.mk_attr(280, lp=100, segs=[(kind, 1)] * h, origin=0)
+            ay = R.mk_attr(281, lp=100, segs=[(kind, 1)] * (h + 1) + [(3, 1)], origin=0)
+            out.append(case('hops:%d_segments_of_one:type%d' % (h, kind), [ins((2, 2, 1, 0), 1, ay, nh=2), ins((1, 1, 9, 0), 1, ax)]))
     # AS_SET counts one whatever its size; confederation segments count nothing
     out.append(case('hops:set_sizes', [ins((1, 1, 9, 0), 1, R.mk_attr(290, lp=100, segs=[(1, 255)], origin=0)),
                                        ins((2, 2, 5, 0), 1, R.mk_attr(291, lp=100, segs=[(1, 1)], origin=0), nh=2),
